@@ -36,12 +36,15 @@ class C12(Check):
     level = "exploration"
     rule = (
         "Domain: pinned slice of the fixture corpus (every dialect, rule sets format/layout/core/all round-robin) + "
-        "generated: fixtures of every dialect (half of them with 1-2 Hypothesis-drawn mutations, parsable or not) and "
+        "generated: fixtures of every dialect (half of them with 1-2 Hypothesis-drawn mutations) and "
         "constructive valid queries with layout noise (G-sql; DISTINCT off because of F-C05-a) x rule selection "
-        "{format set, layout, core, all, any single fix-capable rule}; input <= 800 chars (quick). Observation: "
+        "{format set, layout, core, all, any single fix-capable rule}; input <= 800 chars (quick); inputs that do not "
+        "lex and parse cleanly are excluded by a parse-only pre-check and counted (DESIGN: 'G-mut that still parses'; "
+        "next to an unparsable section the API can glue anything, and the CLI refuses to fix such files). Observation: "
         "Linter.lint_string(fix=True) + LintedFile.fix_string(), then the fixed text is lexed again with the dialect "
-        "lexer. Oracle: non-meta non-empty leaves of the fixed tree == relexed tokens, pairwise (raw text, coarse kind "
-        "whitespace/newline/comment/code); failures classified merge/split/shift/retype/text. Cases where sqlfluff "
+        "lexer. Oracle: non-meta non-empty leaves of the fixed tree == relexed tokens, pairwise (raw text, coarse kind; "
+        "runs of adjacent whitespace leaves count as one token) "
+        "(whitespace/newline/comment/code); failures classified merge/split/shift/retype/text. Cases where sqlfluff "
         "raises or a rule reports 'Unexpected exception' are excluded and counted (C04/C05). Non-trivial: the fix "
         "changed the file and some pair of code tokens that touched is now separated or vice versa."
     )
@@ -83,7 +86,7 @@ class C12(Check):
     # ------------------------------------------------------------------
     def judge(self, case):
         """(run, diff) for one case; diff is None when the oracle holds or the case is excluded."""
-        run = fixlib.FixRun(case)
+        run = fixlib.FixRun(case, require_clean=True)
         if run.excluded or not run.changed:
             return run, None
         if run.tree.raw != run.fixed:
@@ -98,6 +101,13 @@ class C12(Check):
             return run, None
         return run, fixlib.seq_diff(run.tree_tokens(), rl[0])
 
+    @staticmethod
+    def classify(diff):
+        kind, ta, tb = diff
+        left = ta[0][2] if ta else "-"
+        right = ta[1][2] if len(ta) > 1 else (tb[1][2] if len(tb) > 1 else "-")
+        return kind, left, right
+
     def run_case(self, case):
         out = Outcome(labels=fixlib.base_labels(case))
         run, diff = self.judge(case)
@@ -108,8 +118,6 @@ class C12(Check):
             out.label("fix-unchanged")
             return out
         out.label("fix-changed")
-        if run.pre_structural:
-            out.label("input-unparsable")
         if diff is not None and diff[0] == "tree-raw":
             # patch application is judged by C30/C11; with the raw templater this should not happen at all
             out.fail(f"fixed tree spells {run.tree.raw[:80]!r} but fix_string gave {run.fixed[:80]!r}",
@@ -121,15 +129,14 @@ class C12(Check):
             out.label("gap-opened-or-closed")
         if diff is None:
             return out
-        kind, ta, tb = diff
+        kind, left, right = self.classify(diff)
 
         def still(c):
             _, d = self.judge(c)
-            return d is not None and d[0] == kind
+            return d is not None and self.classify(d) == (kind, left, right)
 
-        rule = fixlib.attribute(case, run.fixing_rules(), still)
-        left = ta[0][2] if ta else "-"
-        right = ta[1][2] if len(ta) > 1 else (tb[1][2] if len(tb) > 1 else "-")
+        rule = fixlib.attribute(case, run.fixing_rules(), still, limit=20)
+        ta, tb = diff[1], diff[2]
         out.fail(f"leaves {[t[0] for t in ta][:6]} relex as {[t[0] for t in tb][:6]} in {run.fixed[:120]!r}",
                  kind=kind, rule=rule, left=left, right=right)
         return out
